@@ -254,12 +254,18 @@ pub fn run() -> Report {
 /// "... a function of the data directory and the options only": the same directory and options named in different ways and
 /// run in different process environments. Full product callback (5) x range {whole, -s 1 -e 2} x --verify {off, on} x path
 /// form (absolute / relative / trailing slash / dot components / symbolic links / cwd inside the data directory) x environment
-/// (plain, RAYON_NUM_THREADS unset, a non-English UTF-8 locale with TZ set, logging-related variables, directory listings served in reversed / rotated order).
+/// (plain, RAYON_NUM_THREADS unset, a non-English UTF-8 locale with TZ set, logging-related variables, five other hash seeds (iteration order of the std hash maps), directory listings served in reversed / rotated order). The chain contains addresses whose totals exceed 2^53 and consist of one large and seven unit outputs.
 /// Compared with the absolute-path plain-environment run: exit status, every file of the dump folder, and the
 /// simplestats / opreturn output (log lines that print a path are dropped).
 fn invocation_forms(rep: &mut Report, root: &std::path::Path) {
     let btc = coin("bitcoin");
-    let chain = dependent_chain(btc, 0, 4);
+    let mut chain = dependent_chain(btc, 0, 3);
+    {
+        // addresses whose totals exceed 2^53 and are made of one large and several small outputs: a sum that is not exact
+        // (floating point) depends on the order in which a hash map hands out the outputs
+        let big: Vec<refmodel::ser::TxOut> = (0..4u8).flat_map(|a| std::iter::once(pay(210 + a, 1u64 << 53)).chain((0..7).map(move |_| pay(210 + a, 1)))).collect();
+        chain.push(vec![Tx { version: 1, segwit: false, inputs: vec![TxIn::spend([0xeb; 32], 0)], outputs: big, locktime: 0, wide: 0 }]);
+    }
     let mut world = World::simple(btc, &chain.blocks, 0);
     world.xor_key = Some(vec![0x5a, 0x11, 0xc3, 0x07, 0x99, 0xe0, 0x3c, 0x42]);
     let mut cases = Vec::new();
@@ -271,7 +277,9 @@ fn invocation_forms(rep: &mut Report, root: &std::path::Path) {
         }
     }
     let essential = |r: &RunResult| -> serde_json::Value {
-        let lines: Vec<String> = refmodel::run::strip_time(&r.stdout).lines().filter(|l| !(l.contains("Reading index from") || l.contains("Reading files from") || l.contains("with dump folder") || l.contains("blockchain dir") || l.contains("Starting rusty-blockparser"))).map(|l| l.to_string()).collect();
+        // observe() sorts the "Transaction Types" entries (their order is that of a hash map and explicitly unspecified)
+        let canonical = refmodel::run::observe(r, std::path::Path::new("/nonexistent-root"))["stdout"].as_str().unwrap_or("").to_string();
+        let lines: Vec<String> = canonical.lines().filter(|l| !(l.contains("Reading index from") || l.contains("Reading files from") || l.contains("with dump folder") || l.contains("blockchain dir") || l.contains("Starting rusty-blockparser"))).map(|l| l.to_string()).collect();
         let files: BTreeMap<String, String> = r.files.iter().map(|(k, v)| (k.clone(), refmodel::ser::hex(&refmodel::hash::sha256(&canon(k, v))))).collect();
         json!({"exit": r.code, "signal": r.signal, "files": files, "stdout": lines})
     };
@@ -280,6 +288,11 @@ fn invocation_forms(rep: &mut Report, root: &std::path::Path) {
         ("RAYON_NUM_THREADS unset", vec![], 0),
         ("tr_TR locale, TZ", vec![("LC_ALL", "tr_TR.UTF-8"), ("LANG", "tr_TR.UTF-8"), ("TZ", "Pacific/Kiritimati")], 2),
         ("RUST_LOG and COLUMNS set", vec![("RUST_LOG", "trace"), ("COLUMNS", "20"), ("NO_COLOR", "1"), ("TERM", "dumb")], 2),
+        ("hash seed 2", vec![("VERIF_DETRAND", "2")], 2),
+        ("hash seed 6", vec![("VERIF_DETRAND", "6")], 2),
+        ("hash seed 9", vec![("VERIF_DETRAND", "9")], 2),
+        ("hash seed 17", vec![("VERIF_DETRAND", "17")], 2),
+        ("hash seed 28", vec![("VERIF_DETRAND", "28")], 2),
         ("directory listings reversed", vec![("VERIF_READDIR", "1")], 2),
         ("directory listings rotated", vec![("VERIF_READDIR", "3")], 2),
     ];
